@@ -83,7 +83,10 @@ func (self *Lexer) skipLineComment() {
 		self.advance()
 	}
 
-	self.advance()
+	// skip the newline that ends the comment (there is none at the end of the input)
+	if self.currentChar != nil {
+		self.advance()
+	}
 }
 
 func (self *Lexer) skipBlockComment() {
